@@ -44,9 +44,9 @@ CHOICES = [
     "`continue`/`break_loop` refer to the innermost enclosing loop, also from inside a switch nested in the loop.",
     "operation as if-condition: the op name must be one of the branch opcodes (a condition needs a two-way op).",
     "bit assignment is only defined for `=` (the spec shows no other operator).",
-    "case OP VALUE is CaseValue whatever the switch header is (the spec says so without exception); the option "
-    "case_scenario=True gives the alternative reading (CaseScenario under SwitchScenario) used to look past that "
-    "deviation.",
+    "case OP VALUE is CaseValue, except under switch (scn($V)[0]) (SwitchScenario) where it is CaseScenario with the same "
+    "parameters (docs/language_spec.rst, 'Check against operator', as amended by the fix: commit that documents the "
+    "compiler's deliberate special case); case_scenario=False gives the old undocumented-exception reading.",
 ]
 
 
@@ -418,7 +418,7 @@ def routine_headers(program: A.Program) -> list:
 def sem(
     program: A.Program,
     perf_var: str = "PERFORMANCE_PROGRESS_LIST",
-    case_scenario: bool = False,
+    case_scenario: bool = True,
     extra_macros: Optional[dict] = None,
     with_origin: bool = False,
 ) -> tuple:
